@@ -2,8 +2,10 @@
 """prints the prompt for an independent mutation-seeding sub-agent: property text only, nothing from /verif"""
 import json, sys
 pid, n = sys.argv[1], (sys.argv[2] if len(sys.argv) > 2 else "1")
+focus = sys.argv[3] if len(sys.argv) > 3 else ""
 p = [json.loads(l) for l in open('/verif/properties.jsonl') if json.loads(l)['id'] == pid][0]
 wt = "/tmp/seed-%s-%s" % (pid.lower(), n)
+FOCUS = ("Where to look: several other people have already tried changes in the most obvious spots of this property; to spread out, put your change in or around " + focus + " (still within the code anchors above), unless you find that impossible.\n\n") if focus else ""
 print(f"""You are testing how well a verification effort detects regressions in the Go project hop-proto/hop-go (an SSH-alternative remote-access protocol). You get ONE semantic property of the code base and your own scratch git worktree of the repository. Your job: produce a realistic change to the Go code that BREAKS this property while the code still compiles and the repository's existing test suite still passes, plus a demonstration that the change breaks it.
 
 Work ONLY inside your scratch worktree `{wt}` (create it with: `git -C /repo worktree add {wt} -b seed-{pid.lower()}-{n}`). Never edit /repo itself. Do NOT read anything under /verif (it is off limits; your work must be independent of it). Go environment: `export GOFLAGS=-mod=mod GOPROXY=off` (do not set GOSUMDB or GOTOOLCHAIN; there is no network).
@@ -14,7 +16,7 @@ The property ({pid} — {p['title']}):
   Why the existing tests cannot settle it: {p['why_tests_cant']}
   Code anchors: files {', '.join(p['anchors']['files'])}; mechanisms: {'; '.join(m['name'] + ' (' + m['where'] + ')' for m in p['anchors']['mechanism'])}
 
-Requirements for the change:
+{FOCUS}Requirements for the change:
   * It must be the kind of slip a real maintainer could make in a refactor/optimisation/feature (a plausible diff, small, looks fine in review) — not sabotage like deleting a function body, and not something ordinary use would expose at once. Prefer changes that need something SPECIFIC to manifest: a particular input shape or boundary value, a particular multi-step history, a particular interleaving or fault at a particular point, or two cooperating sites that each look fine alone.
   * After the change: `go build ./...` succeeds and the existing tests of every package you touched (and of packages depending on it that are quick to run, e.g. `go test -vet=off -count=1 ./transport/... ./tubes/...` as relevant) still pass. Run them; report exactly what you ran.
   * Write a demonstration: a Go test file (may be placed inside the package in the worktree, named `zz_seed_demo_test.go`) or a small program that FAILS with your change and PASSES on the unchanged code (verify both with `git apply -R SEED/patch.diff` and `git apply SEED/patch.diff` — NEVER use `git stash`: the stash is shared by all worktrees of the repository and other people are working in sibling worktrees right now). The demonstration must exercise the property as stated (observable behaviour), not an internal detail.
